@@ -4,20 +4,21 @@ from props import prop, case, H
 H('lfht_conc', ['lfht_conc.c', 'lin.c'])
 
 
-def _ep(name, flavor, variant, resize, episodes, workers=3, extra=(), timeout=240):
+def _ep(name, flavor, variant, resize, episodes, workers=3, extra=(), timeout=240, cpus=None):
     args = ['--cfg=%s' % name, '--mode=episodes', '--resize=%s' % resize, '--episodes=%d' % episodes,
             '--workers=%d' % workers, '--placement=0'] + list(extra)
     if variant == 'tsan':
         args.append('--stall-ms=90000')
-    return case(name, 'lfht_conc', flavor, variant, args, cpus=workers + 2, timeout=timeout)
+    # workers + reader + (explicit resizer | library resize worker) [+ call_rcu helper]
+    return case(name, 'lfht_conc', flavor, variant, args, cpus=cpus or workers + 2, timeout=timeout)
 
 
-def _uniq(name, flavor, variant, resize, phases, ops, updaters=4, walkers=2, extra=(), timeout=240):
+def _uniq(name, flavor, variant, resize, phases, ops, updaters=4, walkers=2, extra=(), timeout=240, cpus=None):
     args = ['--cfg=%s' % name, '--mode=uniq', '--resize=%s' % resize, '--phases=%d' % phases, '--ops=%d' % ops,
             '--updaters=%d' % updaters, '--walkers=%d' % walkers, '--placement=0'] + list(extra)
     if variant == 'tsan':
         args.append('--stall-ms=90000')
-    return case(name, 'lfht_conc', flavor, variant, args, cpus=min(8, updaters + walkers + 1), timeout=timeout)
+    return case(name, 'lfht_conc', flavor, variant, args, cpus=cpus or min(8, updaters + walkers + 1), timeout=timeout)
 
 
 def _rounds(name, flavor, variant, resize, rounds, threads=6, extra=(), timeout=240):
@@ -46,7 +47,19 @@ C05_RULE = (
     'powers of two / CDS_LFHT_AUTO_RESIZE chain growth / AUTO_RESIZE|ACCOUNTING with COUNT_COMMIT_ORDER=2; allocators order, '
     'chunk, mmap, default rotate per table generation (a few hundred episodes each, table destroyed empty: must return 0). '
     'non-trivial = episode with >= 2 overlapping operations on one key, at least one a successful update; distinct = '
-    '(discipline, resize state during the episode, set of overlapping (operation, result) class pairs on that key), capped at 2400.')
+    '(discipline, resize state during the episode: stable / explicit resize completed / size changed, concurrency on the key: '
+    '<=2 / 3-4 / 5+, one overlapping pair of (operation, result) classes on that key) - at most 1404 by construction. '
+    'Linearizability is searched with a private Wing-Gong-Lowe checker (harness/lfht_conc_lin.h) in which operations of one '
+    'thread keep their program order exactly and only operations of different threads get the TSC margin (lin.c applies the '
+    'margin, ~1 us = several operations, to every pair). Markers: ht_add_retry, ht_add_gc_help, ht_replace_retry hook hits; '
+    'the lost-ownership branch of _cds_lfht_del has no hook call, counter marker_del_lost_owner_after_flagging counts del '
+    'calls that returned -ENOENT after having set the REMOVED flag themselves (HT_DEL_FLAGGED hit inside the call); '
+    'worker/reader_ops_during_explicit_grow/shrink count operations that ran entirely inside one cds_lfht_resize call. '
+    'KNOWN FINDING (reported, listed in known_findings.json): add_unique / add_replace are not linearizable when the same key is '
+    'also inserted with plain cds_lfht_add; a rejected history is re-checked with a model in which a successful add_unique / '
+    'add_replace-NULL only has to exclude nodes of add_unique / add_replace lineage, and gets the key '
+    'lfht:not-linearizable:add_unique-vs-plain-add-same-key only if that model accepts it; case finding-add_unique-vs-plain-add '
+    'drives the interleaving on purpose (8 evaluations).')
 
 C06_RULE = (
     'UNIQ cases: one evaluation = one WALK (lookup+next_duplicate walk, first/next traversal or plain lookup, each inside one '
@@ -57,10 +70,10 @@ C06_RULE = (
     'exactly once, add_replace on k0 never inserts; per node life an ownership counter (atomic fetch_add must return 0 at every '
     'del 0 / replace 0 / add_replace result); at the quiescent end of each phase inserted - handed-out == present (<= 1) per key. '
     'non-trivial = walk during which >= 1 successful update of the walked key completed; distinct = (walk kind, key class, resize '
-    'mode, kinds of updates that completed during the walk, how many (1 / 2-3 / 4+), size changed / resizing / stable, nodes found). '
+    'mode, kinds of updates that completed during the walk, size changed / resizing / stable). '
     'ROUNDS cases: one evaluation = one round in which K=2-8 threads add_unique the same key at once (barrier + sub-microsecond '
     'offsets + hook delays): exactly one gets its own node back and all others get that node (key present before the round: nobody '
-    'wins, all get the resident node); non-trivial = >= 2 calls overlapped; distinct = (resize mode, K, max overlap, key '
+    'wins, all get the resident node); non-trivial = >= 2 calls overlapped; distinct = (resize mode, K bucket, max overlap bucket, key '
     'present / absent, chaos level, resize state). EPISODE cases (discipline=unique): as C05 with updates restricted to add_unique / '
     'add_replace / replace / del, one evaluation = one episode, plus "never two nodes with one key" for every recorded walk / traversal.')
 
@@ -79,17 +92,20 @@ def c05(tier, seed):
     q = tier == 'quick'
     s = 1 if q else 30
     out = []
-    out.append(_ep('ep-none', 'memb', 'plain', 'none', 60000 * s, timeout=200 * s))
-    out.append(_ep('ep-explicit', 'memb', 'plain', 'explicit', 50000 * s, timeout=200 * s))
-    out.append(_ep('ep-auto', 'memb', 'plain', 'auto', 40000 * s, timeout=200 * s))
-    out.append(_ep('ep-acct', 'memb', 'plain', 'acct', 30000 * s, timeout=200 * s))
-    out.append(_ep('ep-explicit-w4-callrcu', 'memb', 'plain', 'explicit', 40000 * s, workers=4, extra=['--reclaim=call_rcu'],
-                   timeout=200 * s))
-    out.append(_ep('ep-explicit-builtins', 'memb', 'builtins', 'explicit', 30000 * s, timeout=200 * s))
-    out.append(_ep('ep-explicit-asan', 'memb', 'asan', 'explicit', 12000 * s, timeout=300 * s))
-    out.append(_ep('ep-acct-asan', 'memb', 'asan', 'acct', 8000 * s, timeout=300 * s))
-    out.append(_ep('ep-explicit-tsan', 'memb', 'tsan', 'explicit', 4000 * s, timeout=400 * s))
-    out.append(_ep('ep-auto-tsan', 'memb', 'tsan', 'auto', 4000 * s, timeout=400 * s))
+    out.append(_ep('ep-none', 'memb', 'plain', 'none', 200000 * s, timeout=200 * s))
+    out.append(_ep('ep-explicit', 'memb', 'plain', 'explicit', 200000 * s, timeout=200 * s))
+    out.append(_ep('ep-auto', 'memb', 'plain', 'auto', 150000 * s, timeout=200 * s))
+    out.append(_ep('ep-acct', 'memb', 'plain', 'acct', 120000 * s, timeout=200 * s))
+    out.append(_ep('ep-explicit-w4-callrcu', 'memb', 'plain', 'explicit', 150000 * s, workers=4, extra=['--reclaim=call_rcu'],
+                   timeout=200 * s, cpus=7))
+    out.append(_ep('ep-explicit-builtins', 'memb', 'builtins', 'explicit', 100000 * s, timeout=200 * s))
+    out.append(_ep('ep-explicit-asan', 'memb', 'asan', 'explicit', 40000 * s, timeout=300 * s))
+    out.append(_ep('ep-acct-asan', 'memb', 'asan', 'acct', 25000 * s, timeout=300 * s))
+    out.append(_ep('ep-explicit-tsan', 'memb', 'tsan', 'explicit', 15000 * s, timeout=400 * s))
+    out.append(_ep('ep-auto-tsan', 'memb', 'tsan', 'auto', 15000 * s, timeout=400 * s))
+    # known finding, driven on purpose (deterministic): add_unique / add_replace vs plain add of the same key
+    out.append(case('finding-add_unique-vs-plain-add', 'lfht_conc', 'memb', 'plain',
+                    ['--cfg=finding-add_unique-vs-plain-add', '--mode=finding-addu', '--placement=0'], cpus=2, timeout=120))
     if not q:
         for fl in ('mb', 'qsbr', 'bp'):
             for rz in ('none', 'explicit', 'auto', 'acct'):
@@ -108,21 +124,21 @@ def c06(tier, seed):
     q = tier == 'quick'
     s = 1 if q else 30
     out = []
-    out.append(_uniq('uniq-none', 'memb', 'plain', 'none', 12 * s, 40000, updaters=5, walkers=2, timeout=200 * s))
-    out.append(_uniq('uniq-explicit', 'memb', 'plain', 'explicit', 12 * s, 30000, updaters=4, walkers=2, timeout=200 * s))
-    out.append(_uniq('uniq-acct', 'memb', 'plain', 'acct', 10 * s, 30000, updaters=4, walkers=2, extra=['--reclaim=call_rcu'],
-                     timeout=200 * s))
-    out.append(_uniq('uniq-explicit-churn-only', 'memb', 'plain', 'explicit', 10 * s, 30000, updaters=3, walkers=2,
+    out.append(_uniq('uniq-none', 'memb', 'plain', 'none', 30 * s, 50000, updaters=5, walkers=2, timeout=200 * s))
+    out.append(_uniq('uniq-explicit', 'memb', 'plain', 'explicit', 30 * s, 40000, updaters=4, walkers=2, timeout=200 * s))
+    out.append(_uniq('uniq-acct', 'memb', 'plain', 'acct', 30 * s, 40000, updaters=3, walkers=2, extra=['--reclaim=call_rcu'],
+                     timeout=200 * s, cpus=7))
+    out.append(_uniq('uniq-explicit-churn-only', 'memb', 'plain', 'explicit', 25 * s, 40000, updaters=3, walkers=2,
                      extra=['--continuous=0'], timeout=200 * s))
-    out.append(_rounds('rounds-none', 'memb', 'plain', 'none', 60000 * s, threads=7, timeout=200 * s))
-    out.append(_rounds('rounds-explicit', 'memb', 'plain', 'explicit', 40000 * s, threads=5, timeout=200 * s))
-    out.append(_ep('ep-uniq-explicit', 'memb', 'plain', 'explicit', 40000 * s, extra=['--discipline=unique'], timeout=200 * s))
-    out.append(_ep('ep-uniq-auto', 'memb', 'plain', 'auto', 30000 * s, extra=['--discipline=unique'], timeout=200 * s))
-    out.append(_uniq('uniq-explicit-asan', 'memb', 'asan', 'explicit', 6 * s, 10000, updaters=4, walkers=2, timeout=300 * s))
-    out.append(_uniq('uniq-auto-tsan', 'memb', 'tsan', 'auto', 4 * s, 5000, updaters=3, walkers=2, timeout=400 * s))
-    out.append(_uniq('uniq-explicit-tsan', 'memb', 'tsan', 'explicit', 4 * s, 5000, updaters=3, walkers=2, timeout=400 * s))
-    out.append(_rounds('rounds-explicit-asan', 'memb', 'asan', 'explicit', 10000 * s, threads=5, timeout=300 * s))
-    out.append(_ep('ep-uniq-explicit-tsan', 'memb', 'tsan', 'explicit', 3000 * s, extra=['--discipline=unique'], timeout=400 * s))
+    out.append(_rounds('rounds-none', 'memb', 'plain', 'none', 300000 * s, threads=7, timeout=200 * s))
+    out.append(_rounds('rounds-explicit', 'memb', 'plain', 'explicit', 250000 * s, threads=5, timeout=200 * s))
+    out.append(_ep('ep-uniq-explicit', 'memb', 'plain', 'explicit', 200000 * s, extra=['--discipline=unique'], timeout=200 * s))
+    out.append(_ep('ep-uniq-auto', 'memb', 'plain', 'auto', 150000 * s, extra=['--discipline=unique'], timeout=200 * s))
+    out.append(_uniq('uniq-explicit-asan', 'memb', 'asan', 'explicit', 15 * s, 15000, updaters=4, walkers=2, timeout=300 * s))
+    out.append(_uniq('uniq-auto-tsan', 'memb', 'tsan', 'auto', 10 * s, 8000, updaters=3, walkers=2, timeout=400 * s))
+    out.append(_uniq('uniq-explicit-tsan', 'memb', 'tsan', 'explicit', 10 * s, 8000, updaters=3, walkers=2, timeout=400 * s))
+    out.append(_rounds('rounds-explicit-asan', 'memb', 'asan', 'explicit', 50000 * s, threads=5, timeout=300 * s))
+    out.append(_ep('ep-uniq-explicit-tsan', 'memb', 'tsan', 'explicit', 12000 * s, extra=['--discipline=unique'], timeout=400 * s))
     if not q:
         for fl in ('mb', 'qsbr', 'bp'):
             out.append(_uniq('uniq-explicit-%s' % fl, fl, 'plain', 'explicit', 4 * s, 30000, timeout=200 * s))
@@ -132,5 +148,5 @@ def c06(tier, seed):
                            timeout=200 * s))
             out.append(_uniq('uniq-explicit-%s-tsan' % fl, fl, 'tsan', 'explicit', 1 * s, 5000, updaters=3, walkers=2,
                              timeout=400 * s))
-        out.append(_uniq('uniq-none-8upd', 'memb', 'plain', 'none', 6 * s, 40000, updaters=8, walkers=0, timeout=200 * s))
+        out.append(_uniq('uniq-none-7upd', 'memb', 'plain', 'none', 6 * s, 40000, updaters=7, walkers=1, timeout=200 * s))
     return out
